@@ -5,8 +5,9 @@
 out=${OUT:-/tmp/regress.log}; : > $out
 run() { # patch prop name expect
   local patch=$1 prop=$2 name=$3 expect=$4
-  res=$(timeout 1800 /verif/tools/try_mutant.sh $patch $prop quick 2>&1 | tr '\n' ' ' | cut -c1-260)
-  rc=$(echo "$res" | grep -o "exit=[0-9]*" | tail -1)
+  full=$(timeout 1800 /verif/tools/try_mutant.sh $patch $prop quick 2>&1 | tr '\n' ' ')
+  rc=$(echo "$full" | grep -o "exit=[0-9]*" | tail -1)
+  res=$(echo "$full" | cut -c1-200)
   verdict=MISSED; [ "$rc" = "exit=1" ] && verdict=caught; [ "$rc" = "exit=2" ] && verdict=HARNESS-ERROR
   if [ "$expect" = "silent" ]; then [ "$rc" = "exit=0" ] && verdict="silent (as required)" || verdict="FALSE ALARM ($rc)"; fi
   echo "$name $prop $verdict :: $(echo "$res" | cut -c1-150)" | tee -a $out
